@@ -896,6 +896,8 @@ package gohlslib
 //@   requires forall(i, (0 <= i && i < len(entry.partTrack.Samples)) ==> entry.partTrack.Samples[i] != nil)
 //@   modifies t.track.lastAbsoluteTime
 //@   ensures result == nil ==> calls("clientTrack.handleData") == len(entry.partTrack.Samples)
+//@   ensures [C13] result == nil ==> calls("clientStreamProcessorFMP4.onPartTrackProcessed") == 1
+//@   ensures [C13] result != nil ==> calls("clientStreamProcessorFMP4.onPartTrackProcessed") == 0
 //@   loop 1 invariant ri < len(entry.partTrack.Samples) && calls("clientTrack.handleData") == ri + 1
 //@   loop 1 invariant dts == entry.dts + sumdur(entry.partTrack.Samples, ri + 1)
 //@   loop 1 invariant forall(k, (0 <= k && k <= ri) ==> (callarg("clientTrack.handleData", k, 0) == t.track
@@ -1072,4 +1074,74 @@ package gohlslib
 //@   noframe
 //@   nocallpre
 //@   modifies *
+//@ end
+
+// ---------------------------------------------------------------------------------------
+// C13: completion-signal accounting of the fMP4 stream processor. Every entry pushed to a track processor
+// produces exactly one signal on chPartTrackProcessed (process), processSegment waits for exactly as many
+// signals as entries it pushed (otherwise it wedges: too many, or the next segment starts early: too few),
+// and never has more entries in flight than the channel can hold (otherwise a track processor blocks on the
+// full channel while processSegment blocks pushing to that processor; this was a genuine defect, fixed).
+
+//@ func clientTrackProcessorFMP4.push
+//@   props C13
+//@   nosafety
+//@ end
+
+//@ func clientStreamProcessorFMP4.joinTrackProcessors
+//@   props C13
+//@   nosafety
+//@   ensures result == nil
+//@ end
+
+//@ func clientStreamProcessorFMP4.onPartTrackProcessed
+//@   props C13
+//@   nosafety
+//@ end
+
+//@ func clientStreamProcessorFMP4.initialize
+//@   props C13
+//@   modifies p.chPartTrackProcessed
+//@   ensures cap(p.chPartTrackProcessed) == clientMaxTracksPerStream
+//@ end
+
+//@ func clientStreamProcessorFMP4.processSegment
+//@   props C13
+//@   nosafety
+//@   noframe
+//@   nocallpre
+//@   requires cap(p.chPartTrackProcessed) >= 1
+//@   loop 1 invariant p.chPartTrackProcessed == old(p.chPartTrackProcessed)
+//@   loop 1 invariant partTrackCount == calls("clientTrackProcessorFMP4.push") - callsum("clientStreamProcessorFMP4.joinTrackProcessors", 2)
+//@   loop 1 invariant 0 <= partTrackCount && partTrackCount < cap(p.chPartTrackProcessed)
+//@   loop 2 invariant p.chPartTrackProcessed == old(p.chPartTrackProcessed)
+//@   loop 2 invariant partTrackCount == calls("clientTrackProcessorFMP4.push") - callsum("clientStreamProcessorFMP4.joinTrackProcessors", 2)
+//@   loop 2 invariant 0 <= partTrackCount && partTrackCount < cap(p.chPartTrackProcessed)
+//@   atcall clientTrackProcessorFMP4.push calls("clientTrackProcessorFMP4.push") - callsum("clientStreamProcessorFMP4.joinTrackProcessors", 2) < cap(p.chPartTrackProcessed)
+//@   ensures (result == nil && seg != nil) ==> callsum("clientStreamProcessorFMP4.joinTrackProcessors", 2) == calls("clientTrackProcessorFMP4.push")
+//@ end
+
+//@ func clientTimeConvFMP4.setNTP
+//@   props C13
+//@   requires unheld(&ts.mutex)
+//@   modifies ts.ntpAvailable, ts.ntpValue, ts.ntpTimestamp, ts.ntpClockRate
+//@   ensures ts.ntpAvailable && ts.ntpTimestamp == timestamp && ts.ntpClockRate == clockRate
+//@ end
+
+//@ func clientTimeConvFMP4.getNTP
+//@   props C13
+//@   requires unheld(&ts.mutex) && ctx != nil && clockRate > 0 && (ts.ntpAvailable ==> ts.ntpClockRate > 0)
+//@ end
+
+//@ func clientTimeConvFMP4.setLeadingNTPReceived
+//@   props C13
+//@   nosafety
+//@ end
+
+//@ func clientStreamProcessorFMP4.initializeTrackProcessors
+//@   props C13
+//@   nosafety
+//@   noframe
+//@   nocallpre
+//@   modifies p.trackProcessors, clientTrackProcessorFMP4.decodePayload, clientTrackProcessorFMP4.queue
 //@ end
